@@ -12,6 +12,7 @@ import (
 	"strconv"
 	"strings"
 	"sync"
+	"syscall"
 	"time"
 
 	"verifharness/proc"
@@ -162,6 +163,47 @@ type world struct {
 	nbar  int
 	scens []*scen
 	down  bool // server intentionally down (restart in progress)
+	// storm worlds: the scenarios publish their expiry instants here
+	stormX chan time.Time
+}
+
+// pauser freezes the server process (SIGSTOP) from just before the first expiry instant
+// of the storm scenarios until just after the last one, then lets it continue: the
+// batches that had passed the retention-window check before the freeze reach the store
+// at the same moment as the first retention cycle that finds their shard expired. This
+// is the schedule a long stall (VM pause, CPU starvation) produces; no verdict depends
+// on it other than through the ordinary bracketed obligations and "the server survives".
+func (w *world) pauser(n int) {
+	var lo, hi time.Time
+	for i := 0; i < n; i++ {
+		select {
+		case x := <-w.stormX:
+			if x.IsZero() {
+				continue
+			}
+			if lo.IsZero() || x.Before(lo) {
+				lo = x
+			}
+			if x.After(hi) {
+				hi = x
+			}
+		case <-time.After(60 * time.Second):
+			return
+		}
+	}
+	if lo.IsZero() || hi.Sub(lo) > 5*time.Second {
+		return
+	}
+	for i := 0; i < 100000 && clk().Before(lo.Add(-40*time.Millisecond)); i++ {
+		time.Sleep(2 * time.Millisecond)
+	}
+	w.srv.Signal(syscall.SIGSTOP)
+	t := clk()
+	for i := 0; i < 100000 && clk().Before(hi.Add(400*time.Millisecond)); i++ {
+		time.Sleep(5 * time.Millisecond)
+	}
+	w.srv.Signal(syscall.SIGCONT)
+	w.c.Count("storm:server-frozen-across-expiry-ms", clk().Sub(t).Milliseconds())
 }
 
 func newWorld(c *vf.Ctx, name, bin string, ipWorker int, lazy bool) *world {
@@ -176,7 +218,7 @@ func newWorld(c *vf.Ctx, name, bin string, ipWorker int, lazy bool) *world {
 			`thermal-shard-start-duration = "1m"`, `thermal-shard-end-duration = "1m"`}
 	}
 	dir := filepath.Join(c.Scratch, name)
-	w := &world{c: c, name: name, lazy: lazy, stop: make(chan struct{})}
+	w := &world{c: c, name: name, lazy: lazy, stop: make(chan struct{}), stormX: make(chan time.Time, 256)}
 	w.srv = proc.New(proc.Config{Bin: bin, Dir: dir, IP: proc.IP(14, ipWorker), PtNum: 2, Extra: extra})
 	w.tail = &tailer{path: filepath.Join(w.srv.LogDir(), "single.log")}
 	return w
